@@ -195,7 +195,7 @@ def match_known(known, prop_id, rule, sig):
 def write_replay(prop_id, rule, sig, seed, scn, detail, out_dir=None):
     out_dir = out_dir or os.path.join(VERIF, "replays")
     os.makedirs(out_dir, exist_ok=True)
-    name = f"{prop_id}-{rule}-{seed}.json"
+    name = f"{prop_id}-{rule}-{seed}-{hashlib.sha256(sig.encode()).hexdigest()[:8]}.json"
     path = os.path.join(out_dir, name)
     with open(path, "w") as f:
         json.dump({"property": prop_id, "rule": rule, "signature": sig, "seed": seed,
